@@ -1,12 +1,12 @@
 \* generated by gensync.py - edit there
 SPECIFICATION Spec
 CONSTANTS
- Clients = {1, 2, 3}
- Creators = {1}
- Subscribers = {2}
+ Clients = {1, 2}
+ Creators = {}
+ Subscribers = {1, 2}
  OtherType = {}
  MaxOps = 1
- MaxSends = 5
+ MaxSends = 3
  MaxServes = 1
  MaxApplies = 1
  Faults = FALSE
@@ -21,4 +21,5 @@ INVARIANT QuiescentAgreement
 INVARIANT OneDatatype
 PROPERTY CpMonotone
 VIEW StateView
+ACTION_CONSTRAINT EdgeDump
 CHECK_DEADLOCK FALSE
